@@ -19,7 +19,44 @@ import numpy as np
 
 from harness.core import MachineryError, f2b, flist, ilist, parse_flist
 
-MODEL_MODULES = ['SkyllhModel.Model.Cache']
+MODEL_MODULES = ['SkyllhModel.Model.Cache', 'SkyllhModel.Model.CacheTop', 'SkyllhModel.Model.CacheI3R7']
+
+# which Python callables have an executable Lean counterpart that the c06_* theorems are about and that run(ctx) compares with
+# the real callable on every run (harness/core.py model_map_report checks keys against the current source, names against the
+# imported model files)
+MODEL_MAP = {
+    'skyllh/core/trialdata.py::TrialDataManager.initialize_trial': ['Cache.initTrial', 'Cache.bumpInit', 'CacheTop.tstep'],
+    'skyllh/core/trialdata.py::TrialDataManager.change_shg_mgr': ['Cache.changeSource', 'Cache.bumpSrc'],
+    'skyllh/core/trialdata.py::TrialDataManager.calculate_global_fitparam_data_fields': ['Cache.fieldCalc', 'Cache.fieldStep'],
+    'skyllh/core/interpolate.py::Linear1DGridManifoldInterpolationMethod._is_cached': ['Cache.linearHit', 'Cache.hitOf'],
+    'skyllh/core/interpolate.py::Linear1DGridManifoldInterpolationMethod.__call__':
+        ['Cache.interpCall', 'Cache.interpMiss', 'Cache.linCoef', 'Cache.linVal'],
+    'skyllh/core/interpolate.py::Parabola1DGridManifoldInterpolationMethod._is_cached': ['Cache.hitOf'],
+    'skyllh/core/interpolate.py::Parabola1DGridManifoldInterpolationMethod.__call__':
+        ['Cache.interpCall', 'Cache.interpMiss', 'Cache.parCoef', 'Cache.parVal'],
+    'skyllh/core/pdf.py::MultiDimGridPDF._get_cached_pd_values': ['Cache.pdGet'],
+    'skyllh/core/pdf.py::MultiDimGridPDF._store_pd_values_to_cache': ['Cache.pdGet'],
+    'skyllh/core/signalpdf.py::SignalMultiDimGridPDFSet.initialize_for_new_trial': ['CacheTop.tstep'],
+    'skyllh/core/signalpdf.py::SignalMultiDimGridPDFSet.get_pd': ['Cache.evalPdfs', 'Cache.evalC', 'CacheTop.evalCσ'],
+    'skyllh/core/pdfratio.py::SigOverBkgPDFRatio.get_ratio': ['Cache.ratioOf', 'Cache.finish'],
+    'skyllh/core/pdfratio.py::SigOverBkgPDFRatio.get_gradient': ['Cache.gradOf', 'Cache.finish'],
+    'skyllh/core/pdfratio.py::SourceWeightedPDFRatio.get_ratio': ['CacheTop.derive', 'CacheTop.denseRow'],
+    'skyllh/core/pdfratio.py::PDFRatioProduct.get_ratio': ['CacheI3.pstep', 'CacheI3.mulRows'],
+    'skyllh/core/pdfratio.py::PDFRatioProduct.get_gradient': ['CacheI3.pstep', 'CacheI3.combine', 'CacheI3.dep1Of', 'CacheI3.gradOrZero'],
+    'skyllh/core/llhratio.py::ZeroSigH0SingleDatasetTCLLHRatio.evaluate': ['CacheTop.tstep', 'CacheTop.derive'],
+    'skyllh/core/llhratio.py::ZeroSigH0SingleDatasetTCLLHRatio.calculate_ns_grad2': ['CacheTop.grad2Of'],
+    'skyllh/core/llhratio.py::ZeroSigH0SingleDatasetTCLLHRatio.initialize_for_new_trial': ['CacheTop.tstep'],
+    'skyllh/core/llhratio.py::MultiDatasetTCLLHRatio.evaluate': ['CacheTop.cstep', 'CacheTop.combine', 'CacheTop.q0'],
+    'skyllh/core/llhratio.py::MultiDatasetTCLLHRatio.calculate_ns_grad2': ['CacheTop.cgrad2Of'],
+    'skyllh/core/llhratio.py::MultiDatasetTCLLHRatio.initialize_for_new_trial': ['CacheTop.expand'],
+    'skyllh/core/llhratio.py::MultiDatasetTCLLHRatio.change_shg_mgr': ['CacheTop.expand'],
+    'skyllh/i3/pdfratio.py::SplinedI3EnergySigSetOverBkgPDFRatio._is_cached': ['CacheI3.keyEq', 'CacheI3.lookup'],
+    'skyllh/i3/pdfratio.py::SplinedI3EnergySigSetOverBkgPDFRatio._create_interpol_params_recarray':
+        ['CacheI3.allClose', 'CacheI3.reduceKey', 'CacheI3.closeAbs'],
+    'skyllh/i3/pdfratio.py::SplinedI3EnergySigSetOverBkgPDFRatio._calculate_ratio_and_grads': ['CacheI3.miss'],
+    'skyllh/i3/pdfratio.py::SplinedI3EnergySigSetOverBkgPDFRatio.get_ratio': ['CacheI3.lookup', 'CacheI3.step'],
+    'skyllh/i3/pdfratio.py::SplinedI3EnergySigSetOverBkgPDFRatio.get_gradient': ['CacheI3.lookup', 'CacheI3.gradOut', 'CacheI3.assemble'],
+}
 
 RECORDED_VARIANT = (True, True, True, True, True)
 _VARIANT = {}
@@ -113,6 +150,50 @@ def extract_variant(ctx=None, with_fields=False):
     return v if with_fields else v[:4]
 
 
+def _lean_float(x):
+    from harness import extract
+    return extract.lean_float(x)
+
+
+_I3_ATOL = {}
+
+
+def i3_atol(ctx=None):
+    """the absolute tolerance below which SplinedI3EnergySigSetOverBkgPDFRatio._create_interpol_params_recarray treats the
+    per-source parameter values as one value: the call np.isclose(np.diff(...), 0) read from the current source; keywords
+    given as literals are taken from the call, absent ones are numpy's defaults (inspect.signature).  With b = 0 the
+    relative term rtol*|b| vanishes, so atol is the whole tolerance."""
+    if 'v' in _I3_ATOL:
+        return _I3_ATOL['v']
+    import ast
+    import inspect
+    from harness import extract
+    from harness import c06_r7_fixtures as r7
+    val, why = r7.ATOL_RECORDED, None
+    try:
+        f = extract.find_func(extract.find_class(extract.parse('skyllh/i3/pdfratio.py'), 'SplinedI3EnergySigSetOverBkgPDFRatio'),
+                              '_create_interpol_params_recarray')
+        calls = [n for n in ast.walk(f) if isinstance(n, ast.Call) and isinstance(n.func, ast.Attribute) and n.func.attr == 'isclose']
+        if len(calls) != 1:
+            why = '%d isclose calls' % len(calls)
+        else:
+            c = calls[0]
+            kws = {k.arg: k.value for k in c.keywords}
+            second = c.args[1] if len(c.args) > 1 else kws.get('b')
+            if second is None or extract.literal(second) != 0:
+                why = 'second argument of isclose is not the literal 0'
+            elif len(c.args) > 2:
+                why = 'positional tolerances'
+            else:
+                val = float(extract.literal(kws['atol'])) if 'atol' in kws else float(inspect.signature(np.isclose).parameters['atol'].default)
+    except Exception as e:        # noqa: BLE001
+        why = '%s: %s' % (type(e).__name__, e)
+    if why and ctx is not None:
+        ctx.note('C06: atol of _create_interpol_params_recarray not extracted (%s); recorded value %r used' % (why, val))
+    _I3_ATOL['v'] = val
+    return val
+
+
 def generated(ctx):
     (a, b, c, e, d) = probe_variant(ctx)
     L = lambda x: 'true' if x else 'false'  # noqa
@@ -130,7 +211,9 @@ def generated(ctx):
             '/-- calculate_ns_grad2 after a failed evaluate (point outside the grid) raises RuntimeError -/\n'
             'def clearNsgOnEval : Bool := %s\n'
             'def variant : Cache.Variant := ⟨bumpAlways, exactHit, resetNsgrad, clearNsgOnEval⟩\n'
-            'end Gen.C06\n') % (L(a), L(b), L(c), L(d), L(e))
+            '/-- atol of the np.isclose(np.diff(...), 0) in SplinedI3EnergySigSetOverBkgPDFRatio._create_interpol_params_recarray -/\n'
+            'def i3Atol {F : Type} [OfScientific F] : F := %s\n'
+            'end Gen.C06\n') % (L(a), L(b), L(c), L(d), L(e), _lean_float(i3_atol(ctx)))
 
 
 # --------------------------------------------------------------------------------------------------
@@ -1218,7 +1301,42 @@ def shrink_field(ctx, fcase):
 ORACLES = {'fresh_vs_used': o_fresh_vs_used, 'cache_onoff': o_cache_onoff, 'corr': o_corr,
            'field_fresh_vs_used': o_field_fresh_vs_used, 'field_corr': o_field_corr,
            'cache_snapshot': o_cache_snapshot, 'trace_fresh': o_trace_fresh, 'repeat_final': o_repeat_final,
-           'top_corr': o_top_corr, 'arg_forms': o_arg_forms, 'comp_corr': o_comp_corr}
+           'top_corr': o_top_corr, 'arg_forms': o_arg_forms, 'comp_corr': o_comp_corr,
+           'i3_slot_fresh_vs_used': lambda ctx, icase: _r7().fresh_vs_used(icase), 'i3_slot_corr': lambda ctx, icase: o_i3_slot_corr(ctx, icase),
+           'i3_product_fresh_vs_used': lambda ctx, pcase: _r7().pfresh_vs_used(pcase),
+           'i3_product_corr': lambda ctx, pcase: o_i3_product_corr(ctx, pcase)}
+
+
+def o_i3_product_corr(ctx, pcase):
+    r7 = _r7()
+    model = ctx.driver('C06', [r7.prequest(pcase, extract_variant(ctx)[0], i3_atol(ctx))])[0]
+    return r7.pcompare(pcase, r7.prun_impl(pcase), model)
+
+
+def _r7():
+    from harness import c06_r7_fixtures as r7
+    return r7
+
+
+def o_i3_slot_corr(ctx, icase):
+    r7 = _r7()
+    bump = extract_variant(ctx)[0]
+    model = ctx.driver('C06', [r7.request(icase, bump, i3_atol(ctx))])[0]
+    return r7.compare(icase, r7.run_impl(icase), model)
+
+
+def shrink_i3(icase):
+    r7 = _r7()
+    cur = icase
+    changed = True
+    while changed:
+        changed = False
+        for i in range(len(cur['ops'])):
+            cand = dict(cur, ops=cur['ops'][:i] + cur['ops'][i + 1:])
+            if cand['ops'] and r7.fresh_vs_used(cand):
+                cur, changed = cand, True
+                break
+    return cur
 
 
 # --------------------------------------------------------------------------------------------------
@@ -1622,7 +1740,25 @@ def run(ctx):
     treqs = [_top_request(c, lops, variant, cascade=ca) for c, lops, _, ca in tcases]
     creqs = [_comp_request(c, lops, variant) for c, lops, _ in ccases]
     freqs = [_field_request(c, reset) for c in fcases]
-    answers = ctx.driver('C06', reqs + treqs + creqs + freqs)
+    # round 7: the splined I3 energy ratio's one-slot cache, driven directly (Model/CacheI3R7.lean)
+    r7 = _r7()
+    atol = i3_atol(ctx)
+    ctx.extra['source_facts']['i3Atol'] = atol
+    icases = [c for sp in i3_specs() for c in r7.directed_icases(sp)]
+    icases += [r7.gen_icase(ctx.rng, ctx.rng.choice(i3_specs()), maxlen + 3) for _ in range(ctx.n(8, 200))]
+    iimpl = [r7.run_impl(c) for c in icases]
+    ireqs = [r7.request(c, variant[0], atol) for c in icases]
+    # ... and PDFRatioProduct with that ratio as first / second factor, the other factor stateless
+    pcases = [c for i, sp in enumerate(i3_specs()) if (ctx.thorough or i % 2 == 0) for c in r7.directed_pcases(sp, i, ctx.n(1, 2))]
+    pcases += [r7.gen_pcase(ctx.rng, ctx.rng.choice(i3_specs()), maxlen + 3) for _ in range(ctx.n(4, 150))]
+    pimpl = [r7.prun_impl(c) for c in pcases]
+    preqs = [r7.prequest(c, variant[0], atol) for c in pcases]
+    answers = ctx.driver('C06', reqs + treqs + creqs + freqs + ireqs + preqs)
+    pmodel = answers[len(answers) - len(preqs):]
+    answers = answers[:len(answers) - len(preqs)]
+    imodel = answers[len(answers) - len(ireqs):]
+    answers = answers[:len(answers) - len(ireqs)]
+    phase['i3 slot + product impl/requests'] = round(_time.time() - t_ph, 1)
     models = answers[:len(reqs)]
     tmodel = answers[len(reqs):len(reqs) + len(treqs)]
     cmodel = answers[len(reqs) + len(treqs):len(reqs) + len(treqs) + len(creqs)]
@@ -1805,9 +1941,47 @@ def run(ctx):
                           'fresh TrialDataManager' % d, kind='correspondence', relation='field values bit-exact, recomputation flag exact',
                           impl_output=_short(i), model_output=m[:300], signature='C06/field_corr/' + ('recompute' if 'called' in d else 'values'),
                           no_failing_input=True)
+    # ---- round 7: the one-slot cache of the splined I3 energy PDF ratio
+    i_reported = False
+    for c, i, m in zip(icases, iimpl, imodel):
+        ctx.case(key=('i3slot', c['spec'], c['d0'], c['s0'], c['ops'], c.get('rec_form')), desc=None)
+        ctx.count('i3:rec_form=%s' % c.get('rec_form'))
+        ctx.count('i3slot:K=%d/%s' % (c['spec']['K'], c['spec']['interp']))
+        d = r7.compare(c, i, m, stats)
+        r7.count_branches(c, m, atol, stats['branches'])
+        res = r7.fresh_vs_used(c, i)
+        if res and not i_reported:
+            i_reported = True
+            small = shrink_i3(c)
+            ctx.violation('i3_slot_fresh_vs_used', small, r7.fresh_vs_used(small) or res,
+                          signature='C06/i3_slot_fresh_vs_used/stale-energy-ratio-slot', kind='history')
+        elif d and not res:
+            suspicious.append((c, i, m, d))
+            ctx.violation('i3_slot_corr', c, 'model and implementation disagree (%s) but every call answers like freshly built '
+                          'objects' % d, kind='correspondence', relation='1e-9 relative + 1e-12*max|row| per value',
+                          impl_output=_short(i), model_output=m[:300], signature='C06/i3_slot_corr/values', no_failing_input=True)
+    p_reported = False
+    for c, i, m in zip(pcases, pimpl, pmodel):
+        ctx.case(key=('i3prod', c['spec'], c['stubdep'], c['d0'], c['s0'], c['ops'], c.get('rec_form')), desc=None)
+        ctx.count('i3:rec_form=%s' % c.get('rec_form'))
+        ctx.count('i3prod:K=%d/%s/%s/stub(%s)' % (c['spec']['K'], c['spec']['interp'], c['spec']['order'], '+'.join(c['stubdep'])))
+        d = r7.pcompare(c, i, m, stats)
+        res = r7.pfresh_vs_used(c, i)
+        if res and not p_reported:
+            p_reported = True
+            ctx.violation('i3_product_fresh_vs_used', c, res, signature='C06/i3_product_fresh_vs_used/history-dependent-product',
+                          kind='history')
+        elif d and not res:
+            suspicious.append((c, i, m, d))
+            ctx.violation('i3_product_corr', c, 'model and implementation disagree (%s) but every call answers like freshly built '
+                          'objects' % d, kind='correspondence', relation='1e-9 relative + 1e-12*max|row| per value; scalar 0 exact',
+                          impl_output=_short(i), model_output=m[:300], signature='C06/i3_product_corr/values', no_failing_input=True)
+    ctx.extra['i3_product_numbers_compared'] = stats.get('i3p_numbers', 0)
+    ctx.extra['i3_slot_numbers_compared'] = stats.get('i3_numbers', 0)
+    ctx.extra['diag_i3_hit_differs'] = stats.get('diag_i3_hit_differs', 0)
     ctx.extra['correspondence_disagreements'] = len(suspicious)
-    ctx.extra['counts'] = {b: int(stats['branches'].get(b, 0)) for b in BRANCHES}
-    ctx.extra['zero_hit_branches'] = [b for b in BRANCHES if not stats['branches'].get(b)]
+    ctx.extra['counts'] = {b: int(stats['branches'].get(b, 0)) for b in BRANCHES + r7.BRANCHES + r7.PBRANCHES}
+    ctx.extra['zero_hit_branches'] = [b for b in BRANCHES + r7.BRANCHES + r7.PBRANCHES if not stats['branches'].get(b)]
     ctx.extra['floats_compared'] = stats['floats']
     ctx.extra['floats_bit_exact'] = stats['bit_exact']
     ctx.extra['model_cached_ne_pure'] = stats.get('model_cached_ne_pure', 0)
@@ -1870,7 +2044,7 @@ def _corr_mode(d):
 
 
 MANIFEST = dict(
-    text=('Lean theorems (47), for every history, every world of leaf functions and any scalar type. Lower layers (state id, '
+    text=('Lean theorems (63), for every history, every world of leaf functions and any scalar type. Lower layers (state id, '
           'interpolation cache, per-grid-point and background pd caches, event selection blocks): the invariant "cache content = '
           'pure function of the current data at the cached key", the trace theorem (every evaluate of a history, incl. failing '
           'ones, answers like the stateless evaluator), no truncation across trials of different size, caching flags invisible, '
@@ -1881,11 +2055,14 @@ MANIFEST = dict(
           'for every unrepaired variant and for a violated call order. The executable model (bit-pattern scalar = the proved '
           'instance) is compared with real object graphs on every run: ratios, log-lambda, gradients, second derivatives, raised / '
           'refused, also on call sequences that violate the documented order on purpose; fresh-vs-used, caching on/off, byte '
-          'snapshot, repeated-query, caller-side-form and intermediate-evaluate oracles search for failing histories.'),
+          'snapshot, repeated-query, caller-side-form and intermediate-evaluate oracles search for failing histories. '
+          'Round 7: the one-slot cache of the splined I3 energy PDF ratio (key reduction, broadcasting key compare, gradient '
+          'assembly) and PDFRatioProduct on top of it (four gradient branches, scalar 0) are modelled, proved transparent for every '
+          'history and compared call by call with the real classes.'),
     note=('Hypotheses (a) state id advances, (b) hit test is key equality, and the resets are discharged for facts PROBED on the '
           'current classes (five small histories through public methods). Assumptions named in the evidence: well-formed leaf tables '
           '(checked by the fixture), complete call sequences for the top-level transparency theorems, grids without 0.0/NaN. '
-          'Oracle-only: array aliasing (service arrays, handed-out views), PDFRatioProduct, the I3 spline ratio cache, gamma '
+          'Oracle-only: array aliasing (service arrays, handed-out views), gamma '
           'components of the LLH gradient vector (C02), L-BFGS maximisation and TS, static data fields as TDM state under a '
           'violated call order. Not exercised: NR1d maximiser, photospline tables, BackgroundI3SpatialPDF, J > 2, change of the '
           'number of sources.'),
